@@ -268,9 +268,12 @@ def run(pid, tier, seed, replay=None):
         # property specific correspondence + oracles (also the implementation-side failing-input search)
         mod.run(ctx)
         # --- proof side obligations
-        total = sum(len(theorems_in(m)) for m in spec["modules"])
-        props_thms = [t for t in ctx.audit.get("theorems", {}) if any(t.startswith(m + ".") for m in spec["modules"])]
-        discharged = len(props_thms) if ctx.lean_ok else 0
+        declared = [m + "." + t for m in spec["modules"] for t in theorems_in(m)]
+        total = len(declared)
+        audited = ctx.audit.get("theorems", {})
+        discharged = len([t for t in declared if t in audited]) if ctx.lean_ok else 0
+        if ctx.lean_ok and discharged != total:
+            ctx.notes.append("declared theorems missing from the audit: %s" % [t for t in declared if t not in audited])
         broken = []
         if ctx.gen["errors"]:
             broken.append(dict(kind="translator", detail=ctx.gen["errors"]))
@@ -317,7 +320,7 @@ def write_evidence(ctx, spec, total, discharged, error=None):
                checker_cmd="cd /verif/lean && lake build %s  (+ lake env lean build/audit_%s.lean; thorough: lake env leanchecker <module>)" % (
                    " ".join(spec["modules"]), ctx.pid),
                trusted_base=TRUSTED_BASE + spec.get("trusted_extra", []),
-               theorems=sorted(ctx.audit.get("theorems", {}).keys()),
+               theorems=sorted(t for t in ctx.audit.get("theorems", {}).keys() if ".eq_" not in t and "._" not in t),
                axioms_used=sorted(set(a for axs in ctx.audit.get("theorems", {}).values() for a in axs)),
                translator_errors=ctx.gen["errors"] if ctx.gen else None,
                lean_errors=ctx.lean_errors, notes=ctx.notes,
